@@ -201,6 +201,17 @@ def gen_cases(rng, tier):
                     cases.append({'dm': dm, 'world': {'currencies': [cur]},
                                   'op': {'o': 'mk', 'n': ['float', lit.hex()], 'u': cur,
                                          'how': how, 'cls': 'Money'}})
+    # stdlib decimal.Decimal amounts with MORE digits than the stdlib context's precision (28):
+    # still exact, rounded once to the quantum (seeded C05-h, C18-i: Decimal(amount.normalize()))
+    for lit in ('1000000000000010000000000000000001/1000000000000000000000',
+                '98765432109876125000000000000000001/1000000000000000000000',
+                '123456789012345678901234567125/1000',
+                '-1000000000000010000000000000000001/1000000000000000000000'):
+        for dm in (W.MODES if tier == 'thorough' else rng.sample(W.MODES, 4)):
+            for cur in ('EUR', 'BHD'):
+                cases.append({'dm': dm, 'world': {'currencies': [cur]},
+                              'op': {'o': 'mk', 'n': ['stddec', lit], 'u': cur,
+                                     'how': rng.choice(['cls', 'generic']), 'cls': 'Money'}})
     # exchange-rate application to money: C10's cases with a money operand (incl. the
     # amounts beside a rounding tie of the target currency); C10's harness and oracle
     money = [c for c in C10.gen_cases(rng, tier) if c['q']['x'][-1] in dict(C10.CURS)]
